@@ -15,7 +15,7 @@ from fractions import Fraction as Fr
 import numpy as np
 from . import tlc, filt, pool
 
-INV = ["OrderIndependent", "InformationForm", "Symmetric", "PosSemiDef", "NotLarger"]
+INV = ["OrderIndependent", "InformationForm", "Symmetric", "PosSemiDef", "NotLarger", "MeasuredVarianceBounded"]
 FAMILY_SEED = 7      # the instance family is fixed (vetted against 32-bit overflow in TLC), VERIF_SEED varies the float side
 
 
@@ -178,6 +178,9 @@ def replay_instance(m, task):
             x, P = x2, P2
         if probs:
             break
+    # (An "ill-conditioned regime" stage - huge exact scalings, sign conditions only - was tried and removed: at prior/R ratios
+    #  where the Joseph form and the simple form (I - KH)P separate (>= 1e15) the shipped code itself misses the bound
+    #  0 <= H P' H' <= R by tens of percent, so no sound verdict exists there; see DESIGN.md s8.1, seeded change C07_3.)
     # joint call with the stacked system vs the exact end state
     if not probs:
         Hs = np.vstack([cs[i] * np.array(B["H"], dtype=float) for i, B in enumerate(inst["blocks"])]) @ Di
